@@ -1,5 +1,6 @@
 // C41 harness: the auth native contract driven through NativeService.NativeCall over a CacheDB on a memory store, with the
-// ONT-ID contract's verifySignature replaced by a stub whose answer is chosen per call (keyNo: 1 = TRUE, 0 = FALSE, 2 = error).
+// ONT-ID contract's verifySignature replaced by a stub whose answer is chosen per call (keyNo mod 3: 1 = TRUE, 0 = FALSE, 2 = error;
+// the sig field of an op is <class> or <class>k<mult>, keyNo = class + 3*mult, so key numbers range over all of uint64).
 //
 // Line:  A op;op;...      op = <time>,<kind>,args   (lists '.'-separated, "-" = empty)
 //   t,init,c,id                      initContractAdmin called BY contract c
@@ -18,6 +19,7 @@
 //    OR a delegation record of that role with now < expireTime — the notion of "holds" of the contract's own getAuthToken)
 //  * an operation whose signature check did not succeed leaves the storage unchanged (initContractAdmin has no signature)
 //  * after a successful withdraw the delegate has no delegation record of that role
+//  * a successful delegate was signed, issued by a direct holder of exactly that role to a non-holder, with level 1 and expiry < future
 package main
 
 import (
@@ -45,10 +47,11 @@ const FUTURE = 4102488000 // 2100-01-01T12:00:00Z; only used by the generator an
 var (
 	idStr    = map[int]string{}
 	idCode   = map[string]int{}
-	roleCode = map[string]int{"": 0, "role-a": 1, "role-b": 2, "role-c": 3}
-	roleStr  = map[int]string{0: "", 1: "role-a", 2: "role-b", 3: "role-c"}
-	fnStr    = map[int]string{0: "", 1: "mint", 2: "burn", 3: "pause", 4: "upgrade"}
-	fnCode   = map[string]int{"": 0, "mint": 1, "burn": 2, "pause": 3, "upgrade": 4}
+	// role and function names are prefixes of one another / of different lengths (one role is 300 bytes: 3-byte var-length prefix)
+	roleStr  = map[int]string{0: "", 1: "op", 2: "ope", 3: "op" + strings.Repeat("e", 298)}
+	roleCode = map[string]int{}
+	fnStr    = map[int]string{0: "", 1: "mint", 2: "mintTo", 3: "m", 4: "upgrade"}
+	fnCode   = map[string]int{}
 )
 
 func contractAddr(c int) common.Address {
@@ -60,6 +63,12 @@ func contractAddr(c int) common.Address {
 }
 
 func initAll() {
+	for k, v := range roleStr {
+		roleCode[v] = k
+	}
+	for k, v := range fnStr {
+		fnCode[v] = k
+	}
 	for i := 1; i <= 5; i++ {
 		s, err := account.CreateID([]byte{byte(i), 0x41})
 		if err != nil {
@@ -82,7 +91,7 @@ func initAll() {
 			if err != nil {
 				return nil, err
 			}
-			switch keyNo {
+			switch keyNo % 3 {
 			case 1:
 				return utils.BYTE_TRUE, nil
 			case 0:
@@ -335,6 +344,27 @@ func (w *world) call(callerContract int, now uint32, method string, args []byte)
 	return "?", db
 }
 
+// sig field: <class> or <class>k<mult>; the key number sent is class + 3*mult, the stub answers by keyNo % 3
+func sigClass(s string) string {
+	if k := strings.IndexByte(s, 'k'); k >= 0 {
+		return s[:k]
+	}
+	return s
+}
+
+func keyNo(s string) uint64 {
+	cls, mult := s, "0"
+	if k := strings.IndexByte(s, 'k'); k >= 0 {
+		cls, mult = s[:k], s[k+1:]
+	}
+	c, err1 := strconv.ParseUint(cls, 10, 64)
+	m, err2 := strconv.ParseUint(mult, 10, 64)
+	if err1 != nil || err2 != nil || c > 2 || m > (1<<64-3)/3 {
+		panic("bad sig field " + s)
+	}
+	return c + 3*m
+}
+
 func atoi(s string) int {
 	n, err := strconv.Atoi(s)
 	if err != nil {
@@ -400,7 +430,7 @@ func exec(line string) hx.Result {
 			(&auth.InitContractAdminParam{AdminOntID: idB(atoi(p[3]))}).Serialization(sink)
 		case "xfer":
 			method, sigIdx = "transfer", 4
-			(&auth.TransferParam{ContractAddr: contractAddr(c), NewAdminOntID: idB(atoi(p[3])), KeyNo: uint64(atoi(p[4]))}).Serialization(sink)
+			(&auth.TransferParam{ContractAddr: contractAddr(c), NewAdminOntID: idB(atoi(p[3])), KeyNo: keyNo(p[4])}).Serialization(sink)
 		case "af":
 			method, sigIdx = "assignFuncsToRole", 6
 			var fns []string
@@ -408,7 +438,7 @@ func exec(line string) hx.Result {
 				fns = append(fns, fnStr[x])
 			}
 			(&auth.FuncsToRoleParam{ContractAddr: contractAddr(c), AdminOntID: idB(atoi(p[3])), Role: []byte(roleStr[atoi(p[4])]),
-				FuncNames: fns, KeyNo: uint64(atoi(p[6]))}).Serialization(sink)
+				FuncNames: fns, KeyNo: keyNo(p[6])}).Serialization(sink)
 		case "ai":
 			method, sigIdx = "assignOntIDsToRole", 6
 			var ps [][]byte
@@ -416,20 +446,20 @@ func exec(line string) hx.Result {
 				ps = append(ps, idB(x))
 			}
 			(&auth.OntIDsToRoleParam{ContractAddr: contractAddr(c), AdminOntID: idB(atoi(p[3])), Role: []byte(roleStr[atoi(p[4])]),
-				Persons: ps, KeyNo: uint64(atoi(p[6]))}).Serialization(sink)
+				Persons: ps, KeyNo: keyNo(p[6])}).Serialization(sink)
 		case "dg":
 			method, sigIdx = "delegate", 8
 			per, _ := strconv.ParseUint(p[6], 10, 64)
 			lvl, _ := strconv.ParseUint(p[7], 10, 64)
 			(&auth.DelegateParam{ContractAddr: contractAddr(c), From: idB(atoi(p[3])), To: idB(atoi(p[4])), Role: []byte(roleStr[atoi(p[5])]),
-				Period: per, Level: lvl, KeyNo: uint64(atoi(p[8]))}).Serialization(sink)
+				Period: per, Level: lvl, KeyNo: keyNo(p[8])}).Serialization(sink)
 		case "wd":
 			method, sigIdx = "withdraw", 6
 			(&auth.WithdrawParam{ContractAddr: contractAddr(c), Initiator: idB(atoi(p[3])), Delegate: idB(atoi(p[4])), Role: []byte(roleStr[atoi(p[5])]),
-				KeyNo: uint64(atoi(p[6]))}).Serialization(sink)
+				KeyNo: keyNo(p[6])}).Serialization(sink)
 		case "vt":
 			method, sigIdx = "verifyToken", 5
-			(&auth.VerifyTokenParam{ContractAddr: contractAddr(c), Caller: idB(atoi(p[3])), Fn: fnStr[atoi(p[4])], KeyNo: uint64(atoi(p[5]))}).Serialization(sink)
+			(&auth.VerifyTokenParam{ContractAddr: contractAddr(c), Caller: idB(atoi(p[3])), Fn: fnStr[atoi(p[4])], KeyNo: keyNo(p[5])}).Serialization(sink)
 		default:
 			return hx.Result{Out: "bad-op"}
 		}
@@ -440,7 +470,7 @@ func exec(line string) hx.Result {
 		outs = append(outs, r)
 		kinds[p[1]+":"+r] = true
 		trace = append(trace, p[1]+r)
-		sigOK := sigIdx >= 0 && p[sigIdx] == "1"
+		sigOK := sigIdx >= 0 && sigClass(p[sigIdx]) == "1"
 		after := readView(storage.NewCacheDB(w.ov))
 		if after.bad != "" {
 			fail("storage-item-unparsable:"+after.bad, "a stored auth item no longer parses after "+op)
@@ -469,6 +499,33 @@ func exec(line string) hx.Result {
 					trace = append(trace, shape)
 				}
 				kinds["vt-held:"+strconv.FormatBool(held)] = true
+			}
+		}
+		if p[1] == "dg" && r == "T" { // a delegation is issued only by a direct holder of exactly that role, to a non-holder, level 1, expiry < future
+			from, to, ro := atoi(p[3]), atoi(p[4]), atoi(p[5])
+			direct := false
+			for _, t := range before.tokens[[2]int{c, from}] {
+				direct = direct || t.role == ro
+			}
+			toHeld := false
+			for _, t := range before.tokens[[2]int{c, to}] {
+				toHeld = toHeld || t.role == ro
+			}
+			for _, d := range before.status[[2]int{c, to}] {
+				toHeld = toHeld || (d.role == ro && now < d.expire)
+			}
+			per, _ := strconv.ParseUint(p[6], 10, 64)
+			switch {
+			case !sigOK:
+				fail("delegate-accepted-outside-guard:signature-not-verified", op+" returned TRUE; storage "+before.String())
+			case !direct:
+				fail("delegate-accepted-outside-guard:from-is-not-a-direct-holder-of-the-role", op+" returned TRUE; storage "+before.String())
+			case toHeld:
+				fail("delegate-accepted-outside-guard:to-already-holds-the-role", op+" returned TRUE; storage "+before.String())
+			case p[7] != "1":
+				fail("delegate-accepted-outside-guard:level", op+" returned TRUE")
+			case uint64(now)+per >= FUTURE:
+				fail("delegate-accepted-outside-guard:expiry-not-before-future", op+" returned TRUE")
 			}
 		}
 		if p[1] == "wd" && r == "T" { // a successful withdraw revokes: no record of that role is left for the delegate
@@ -522,19 +579,30 @@ func gen(r *hx.Rand, tier string, i int) string {
 	if r.Chance(2) {
 		now = 4294967295 - uint32(r.Intn(40))
 	}
+	if r.Chance(4) {
+		now = uint32(r.U64()) // any uint32 block time
+	}
 	// what the generator believes about the state; it only steers the choice of arguments
 	admin := map[int]int{}
 	direct := map[[2]int][]int{} // contract, role -> ids
 	funcs := map[[2]int][]int{}
 	var dels []gdel
 	sig := func() string {
+		cls := "1"
 		switch x := r.Intn(25); {
 		case x == 0:
-			return "0"
+			cls = "0"
 		case x == 1:
-			return "2"
+			cls = "2"
 		}
-		return "1"
+		if r.Chance(60) { // key numbers are opaque to the auth contract: any uint64
+			m := []uint64{1, 2, 84, 85, 86, 21845, 1431655765, 1431655766, 3074457345618258602, 6148914691236517204}[r.Intn(10)]
+			if r.Chance(30) {
+				m = r.U64() % 6148914691236517204
+			}
+			return fmt.Sprintf("%sk%d", cls, m)
+		}
+		return cls
 	}
 	id := func() int {
 		if r.Chance(3) {
@@ -542,9 +610,19 @@ func gen(r *hx.Rand, tier string, i int) string {
 		}
 		return 1 + r.Intn(5)
 	}
+	mainRole := 1 + r.Intn(2)
+	if r.Chance(12) {
+		mainRole = 3
+	}
 	role := func() int {
+		if r.Chance(55) { // most operations of one history concern the same role, so that they interact
+			return mainRole
+		}
 		if r.Chance(3) {
 			return 0
+		}
+		if r.Chance(12) {
+			return 3
 		}
 		return 1 + r.Intn(2)
 	}
@@ -623,7 +701,7 @@ func gen(r *hx.Rand, tier string, i int) string {
 			add("init", c, a)
 			admin[c] = a
 		}
-		for j := 0; j < 1+r.Intn(3); j++ {
+		for j := 0; j < 2+r.Intn(3); j++ {
 			doAf(c)
 		}
 		for j := 0; j < 1+r.Intn(2); j++ {
@@ -648,12 +726,20 @@ func gen(r *hx.Rand, tier string, i int) string {
 			case 2:
 				per = uint32(r.Intn(1000))
 			}
-			lvl := 1
-			if r.Chance(10) {
-				lvl = []int{0, 2, 3, 127, 128}[r.Intn(5)]
+			lvl := uint64(1)
+			if r.Chance(12) {
+				lvl = []uint64{0, 2, 3, 4, 64, 126, 127, 128, 129, 255, 256, 257, 65537, 1 << 32, 1<<32 + 1, 1<<64 - 1}[r.Intn(16)]
 			}
-			add("dg", c, from, to, ro, per, lvl, sig())
-			if uint64(now)+uint64(per) < 1<<32 {
+			if r.Chance(3) {
+				lvl = r.U64() % 300
+			}
+			var perS interface{} = per
+			if r.Chance(3) { // beyond uint32: refused by the parameter decoder
+				perS = []uint64{1 << 32, 1<<32 + 5, 1 << 63, 1<<64 - 1}[r.Intn(4)]
+			}
+			sg := sig()
+			add("dg", c, from, to, ro, perS, lvl, sg)
+			if uint64(now)+uint64(per) < FUTURE && lvl == 1 && sigClass(sg) == "1" && perS == interface{}(per) { // plausibly accepted
 				dels = append(dels, gdel{c, from, to, ro, now + per})
 			}
 		case x < 8: // withdraw, mostly an existing delegation
@@ -674,6 +760,9 @@ func gen(r *hx.Rand, tier string, i int) string {
 				c, caller, ro = d.c, d.to, d.role
 			} else {
 				ro = role()
+				for try := 0; try < 4 && (len(direct[[2]int{c, ro}]) == 0 || len(funcs[[2]int{c, ro}]) == 0); try++ {
+					ro = 1 + r.Intn(3) // prefer a role that has both holders and functions
+				}
 				caller = pick(direct[[2]int{c, ro}], id())
 			}
 			add("vt", c, caller, pick(funcs[[2]int{c, ro}], r.Intn(5)), sig())
